@@ -36,6 +36,8 @@ impl MemTable {
             let key = Key::from(entry);
             let value = entry.value.clone();
             self.skiplist.insert(key, value);
+            #[cfg(rescrv_blue_verif)]
+            crate::verif::yield_point(4);
         }
         Ok(())
     }
